@@ -60,6 +60,7 @@ class Gen:
         self.rng, self.bp, self.ip = rng, bp, ip
         self.indices = sorted(ip.barcodes[INDEX_ALIAS].keys())
         self.lower = False
+        self._amb = {}
 
     def bases(self, n, pn=0.04):
         r = self.rng
@@ -99,6 +100,8 @@ class Gen:
             t = r.choice([0, 1, 2, 5, 12, n, max(0, n - 1)])
             t = min(t, n)
             s = 'T' * t + s[t:]
+        elif st == 'CHICTV' and m == 1 and k == 9 and n >= len(OLIGO):
+            ctx['oligo_on_ligation_base'] = True           # oligo at 11..19: in the read, but not in the insert (which starts at 12)
         elif st == 'CHICTV' and m == 1 and k < 9 and n >= len(OLIGO):
             p = min(r.choice([0, 1, 5, 6, 7, r.randrange(0, n)]), n - len(OLIGO))
             s = s[:p] + OLIGO + s[p + len(OLIGO):]
@@ -107,17 +110,19 @@ class Gen:
                 s = s[:p2] + OLIGO + s[p2 + len(OLIGO):]
         elif st == 'TCHIC':
             cs2 = ctx.get('cs2')
-            if m == 1 and k < 5 and cs2 and n >= 6 + len(cs2) + 5:
+            if m == 1 and (k < 5 or 'vasa_at' in ctx) and cs2 and n >= 6 + len(cs2) + 5:
                 p = min(r.choice([0, 3, 6, 7, r.randrange(0, n)]), n - len(cs2) - 5)
+                p = ctx.get('vasa_at', p)                  # 0: the motif opens the insert, no transcript UMI can be extracted
                 motif = cs2 + 'TTTTT'
                 s = s[:p] + motif + s[p + len(motif):]
                 ctx['vasa'] = True
             elif m == 1 and k == 5 and n >= 23:
                 s = s[:2] + 'T' * 23 + s[25:]
-            elif m == 1 and k == 6 and n >= 14:
+            elif m == 1 and k in (6, 7) and n >= 14:
                 s = s[:3] + r.choice(['AGTCCGACGAT', 'GTTCTACAGT']) + s[14:]
             elif m == 2 and n >= 16:
-                kk = r.randrange(6)
+                # trim_r2 only runs on bleed-through molecules: when R1 carries the motif, give R2 something to trim most of the time
+                kk = r.randrange(3) if (ctx.get('vasa') and r.random() < 0.8) else r.randrange(6)
                 if kk == 0:
                     p = r.randrange(0, n - 10)
                     s = s[:p] + 'A' * 10 + s[p + 10:]
@@ -139,7 +144,42 @@ class Gen:
         cuts = set(sc['cuts']) | {sc['ins'][m - 1], sc['need'][m - 1]}
         return sorted({c + d for c in cuts for d in (-1, 0, 1) if c + d >= max(0, sc['need'][m - 1])})
 
-    def pair(self, sc, tid, i=None):
+    def header(self, kind, tid, m, index):
+        """input header variants TaggedRecord.fromRawFastq knows: 11-field Illumina with a whitelisted / numeric / unknown
+        sequencing index, 10-field (no index), 7-field, 3-DEC"""
+        lane, x, y = 1 + tid % 4, 1000 + tid % 30000, 1000 + tid // 7
+        if kind == 'numeric_index':
+            return '@NS500414:628:H7YVNBGXC:%d:11101:%d:%d %d:N:0:%d' % (lane, x, y, m, 1 + tid % 9)
+        if kind == 'unknown_index':
+            return '@NS500414:628:H7YVNBGXC:%d:11101:%d:%d %d:N:0:GGGGGGGGGGGG' % (lane, x, y, m)
+        if kind == 'no_index':
+            return '@NS500414:628:H7YVNBGXC:%d:11101:%d:%d %d:N:0::' % (lane, x, y, m)
+        if kind == 'seven_field':
+            return '@NS500414:628:H7YVNBGXC:%d:11101:%d:%d' % (lane, x, y)
+        if kind == 'three_dec':
+            return '@Cluster_s_%d_%d_%d' % (lane, 1101 + tid % 50, m)
+        return '@NS500414:628:H7YVNBGXC:%d:11101:%d:%d %d:N:0:%s' % (lane, x, y, m, index)
+
+    def ambiguous(self, st):
+        """inputs that BOTH sub-demultiplexers of a DamID+transcriptome strategy accept (looked up in the real parser):
+        DamAndT -> 11-mers X for R1[3:14] with X[0:10] a DamID2 barcode and X[3:11] a celseq2 barcode (each within the
+        parser's Hamming expansion); DamID2andT_3u4b3u4b -> DamID2_scattered_8bp barcodes that also resolve in CS2_scattered_8bp"""
+        if st not in self._amb:
+            look = self.bp.getIndexCorrectedBarcodeAndHammingDistance
+            found = []
+            if st == 'DamAndT':
+                for d in sorted(self.bp.barcodes.get('DamID2', {})):
+                    for c in sorted(self.bp.barcodes.get('celseq2', {})):
+                        for x in (d + c[7], d[:3] + c):
+                            if look(alias='DamID2', barcode=x[:10])[0] is not None and look(alias='celseq2', barcode=x[3:11])[0] is not None:
+                                found.append(x)
+            elif st == 'DamID2andT_3u4b3u4b':
+                found = [b for b in sorted(self.bp.barcodes.get('DamID2_scattered_8bp', {}))
+                         if look(alias='CS2_scattered_8bp', barcode=b)[0] is not None]
+            self._amb[st] = found
+        return self._amb[st]
+
+    def pair(self, sc, tid, i=None, hdr_kind=None, nm_force=None, long_enough=False, ambiguous=False, force=None):
         """-> (records as 4-tuples, nm, description of the generated case); the first pairs of a scenario (i = 0, 1, ..)
         walk deterministically through the boundary lengths of mate 1, then of mate 2"""
         r = self.rng
@@ -154,34 +194,50 @@ class Gen:
         elif r.random() < 0.04:
             nm = 3 - nm if nm in (1, 2) else nm          # a record count the table does not list (expected: not accepted)
         wl = self.bp.barcodes.get(sc['wl'], {}) if sc['wl'] else {}
-        ctx = {}
+        ctx = dict(force or {})
         desc = {'exact': 1, 'wl_n': len(wl)}
         barcode = ''
         if sc['bc']:
             blen = sum(hi - lo for _, lo, hi in sc['bc'])
             if wl:
                 barcode = r.choice(sorted(wl.keys()))
+                amb = self.ambiguous(sc['strategy']) if sc['strategy'] in ('DamAndT', 'DamID2andT_3u4b3u4b') else []
+                if amb and forced == [None, None] and (ambiguous or r.random() < 0.1):
+                    desc['ambiguous'] = 1
+                    if sc['strategy'] == 'DamAndT':
+                        ctx['segment'] = (3, r.choice(amb))
+                    else:
+                        barcode = r.choice(amb)
                 if sc['strategy'] == 'TCHIC':
                     idx = wl[barcode]
                     for k2, v2 in (self.bp.barcodes.get('celseq2') or {}).items():
                         if v2 == idx:
                             ctx['cs2'] = k2
-                if r.random() < 0.2 and forced == [None, None]:   # one mismatch: the raw tag must keep the read's bases
-                    p = r.randrange(len(barcode))
+                if r.random() < 0.2 and forced == [None, None] and not desc.get('ambiguous'):   # one mismatch: the raw tag must keep the read's bases
+                    p = r.choice([0, len(barcode) - 1, len(barcode) - 2, r.randrange(len(barcode)), r.randrange(len(barcode))])   # ends: a tag may overlap them
                     barcode = barcode[:p] + r.choice([c for c in 'ACGTN' if c != barcode[p]]) + barcode[p + 1:]
                     desc['exact'] = 0
             else:
                 barcode = self.bases(blen, 0)
                 desc['exact'] = 0
         lens = [self.length(sc, 1) if forced[0] is None else forced[0], self.length(sc, 2) if forced[1] is None else forced[1]]
+        if long_enough:                                    # the case is about something else than the length: keep it acceptable
+            lens = [max(lens[m], sc['ins'][m] + 24) for m in (0, 1)]
+        if nm_force is not None:
+            nm = nm_force
         recs = []
         index = r.choice(self.indices)
-        stale = self.stale_header(sc, tid, index) if r.random() < 0.25 else None
+        stale = self.stale_header(sc, tid, index) if (r.random() < 0.25 and hdr_kind is None) else None
+        if hdr_kind:
+            desc['hdr_kind'] = hdr_kind
         stale_on = r.choice([(1, 2), (1, 2), (1,), (2,)]) if stale else ()      # both mates, or only one of them
         desc['stale_header'] = 1 if stale else 0
         self.lower = r.random() < 0.06
         desc['lower'] = 1 if self.lower else 0
-        for m in (1, 2)[:nm]:
+        for m in (1, 2, 3)[:nm]:
+            if m == 3:                                     # a third record (never a read pair): mate 2 again under another name
+                recs.append((self.header(hdr_kind, tid, 3, index),) + recs[1][1:])
+                continue
             n = lens[m - 1]
             start = sc['ins'][m - 1]
             prefix = self.bases(min(n, start), 0.02)
@@ -194,8 +250,12 @@ class Gen:
                         if j < len(s):
                             s[j] = barcode[off + j - lo]
                 off += hi - lo
+            if ctx.get('segment') and m == 1 and len(s) >= ctx['segment'][0] + len(ctx['segment'][1]):
+                s[ctx['segment'][0]:ctx['segment'][0] + len(ctx['segment'][1])] = list(ctx['segment'][1])
+            if ctx.get('oligo_on_ligation_base') and m == 1 and len(s) >= 11 + len(OLIGO):
+                s[11:11 + len(OLIGO)] = list(OLIGO)
             s = ''.join(s)
-            hdr = '@NS500414:628:H7YVNBGXC:%d:%d:%d:%d %d:N:0:%s' % (1 + tid % 4, 11101, 1000 + tid % 30000, 1000 + tid // 7, m, index)
+            hdr = self.header(hdr_kind, tid, m, index)
             if stale is not None and m in stale_on:
                 hdr = stale
             recs.append((hdr, s, '+', self.quals(len(s))))
@@ -248,6 +308,22 @@ def project(res, obs):
     return obs
 
 
+def probe_fix(st, recs):
+    """content the strategies look for when called with probe=True (auto-detection), so that such calls can be ACCEPTED too"""
+    def put(s, at, motif):
+        return s[:at] + motif + s[at + len(motif):] if len(s) >= at + len(motif) else s
+    h, s, plus, q = recs[0]
+    if st.startswith('NLAIII'):
+        s = put(s, 11, 'CATG')
+    elif st.startswith('scCHIC'):
+        s = put(s, 11, 'T')
+    elif st == 'SCARC8R2':
+        s = put(s, 0, 'CCTTGAACTTCTGGTTGTAG')
+    elif st == 'SCARC8R2R4':
+        s = put(s, 4, 'CCTTGAACTTCTGGTTGTAG')
+    return [(h, s, plus, q)] + list(recs[1:])
+
+
 def observe(strategy, recs, FastqRecord, NonMultiplexable, call=None):
     """call: {'library': str, 'probe': None|False|True|'omit'} - the keyword arguments of this call"""
     records = tuple(FastqRecord(*x) for x in recs)
@@ -271,7 +347,7 @@ def observe(strategy, recs, FastqRecord, NonMultiplexable, call=None):
 def event(tid, st, branch, inj, recs, nm, desc, call, via):
     return {'ev': 'demux', 'tid': tid, 's': st, 'branch': branch, 'inj': inj, 'nm': nm, 'via': via,
             'r1': codes(recs[0][1]), 'q1': codes(recs[0][3]),
-            'r2': codes(recs[1][1]) if nm > 1 else [], 'q2': codes(recs[1][3]) if nm > 1 else [],
+            'r2': codes(recs[1][1]) if nm > 1 else [], 'q2': codes(recs[1][3]) if nm > 1 else [],   # (a third record repeats mate 2)
             'gen': desc, 'hdrs': [x[0] for x in recs], 'call': {'library': call['library'], 'probe': str(call['probe'])}}
 
 
@@ -396,6 +472,9 @@ def main():
                 key = '%s/%d/%d' % (st, sc['branch'], inj)
                 stats[key] = {'s': st, 'branch': sc['branch'], 'inj': inj, 'wl': sc['wl'], 'wl_n': shipped, 'attempts': 0, 'accepted': 0}
                 n = n_per if (shipped != 0) else max(5, n_per // 10)
+                blen0 = len(gen.boundary_lengths(sc, 1)) + len(gen.boundary_lengths(sc, 2))
+                if shipped != 0 and (sc['rel'] or sc['trim'] != ['none', 'none']):
+                    n = max(n, blen0 + 30)                 # the content recipes need random (long) inserts after the boundary walk
                 for i in range(n):
                     tid += 1
                     recs, nm, desc = gen.pair(sc, tid, i)
@@ -404,6 +483,45 @@ def main():
                     obs = observe(strategies[st], recs, FastqRecord, NonMultiplexable, call)
                     stats[key]['attempts'] += 1
                     stats[key]['accepted'] += 1 if obs['acc'] else 0
+                    e = event(tid, st, sc['branch'], inj, recs, nm, desc, call, 'direct')
+                    e.update(obs)
+                    emit(e)
+
+            # 1b. one deterministic case per input/call class for every branch (long enough reads, exact barcode position)
+            extras = [('hdr', 'numeric_index'), ('hdr', 'three_dec'), ('hdr', 'no_index'), ('hdr', 'seven_field'), ('hdr', 'unknown_index'),
+                      ('three_records', None), ('unlisted_count', None), ('probe_true_fixed', None), ('probe_true', None),
+                      ('probe_false', None), ('probe_omit', None), ('empty_library', None), ('ambiguous', None), ('vasa_at_0', None), ('vasa_at_4', None)]
+            for sc in scenarios:
+                st = sc['strategy']
+                if st not in strategies or (only and st not in only) or (inj and sc['wl'] not in INJECT):
+                    continue
+                if not inj and sc['wl'] and not bp.barcodes.get(sc['wl']):
+                    continue
+                for kind, arg in extras:
+                    call = {'library': '' if kind == 'empty_library' else 'LIB',
+                            'probe': {'probe_true_fixed': True, 'probe_true': True, 'probe_false': False, 'probe_omit': 'omit'}.get(kind)}
+                    nm_force = None
+                    if kind == 'three_records':
+                        if st == 'ILLU':
+                            continue                       # the bulk strategy takes any number of records; not a read pair
+                        nm_force = 3
+                    if kind == 'unlisted_count':
+                        other = [c for c in (1, 2) if c not in sc['mates']]
+                        if not other:
+                            continue
+                        nm_force = other[0]
+                    tid += 1
+                    if kind == 'ambiguous' and st not in ('DamAndT', 'DamID2andT_3u4b3u4b'):
+                        continue
+                    if kind.startswith('vasa_at') and st != 'TCHIC':
+                        continue
+                    force = {'vasa_at': int(kind[-1])} if kind.startswith('vasa_at') else None
+                    recs, nm, desc = gen.pair(sc, tid, hdr_kind=arg, nm_force=nm_force, long_enough=True, ambiguous=(kind == 'ambiguous'),
+                                              force=force)
+                    if kind == 'probe_true_fixed':
+                        recs = probe_fix(st, recs)
+                    desc['case'] = kind if arg is None else arg
+                    obs = observe(strategies[st], recs, FastqRecord, NonMultiplexable, call)
                     e = event(tid, st, sc['branch'], inj, recs, nm, desc, call, 'direct')
                     e.update(obs)
                     emit(e)
